@@ -29,18 +29,20 @@ EXTENDS Integers, Sequences, FiniteSets, TLC, Json
 
 CONSTANTS Sess,        \* session names, e.g. {"s1", "s2"}
           Menu,        \* set of message sequences a session / master transaction may carry
+          MixMenu,     \* message sequences of transactions signed by an ORDINARY account and a session key together
           Creates,     \* set of [limit, period, expin, allow] session parameters
           Fees,        \* fees of session transactions
           Pre,         \* [Sess -> create parameters, or limit = -1 for none]: sessions created by the master at time 0
           MaxTime, MaxLen
 
 MStart == 40                              \* master's balance at the start (units)
+OStart == 20                              \* balance of the ordinary account o (the session holder's own account)
 Allows == {"*", "send", "exec", "execother"}     \* ["*"], ["bank/send"], ["vm/exec:<test realm>"], ["vm/exec:<other realm>"]
 NoSess == [exists |-> FALSE, limit |-> 0, used |-> 0, period |-> 0, reset |-> 0, expires |-> 0, allow |-> "*", seq |-> 0]
 
-VARIABLES now, mbal, sess, stor, out, hist, last
+VARIABLES now, mbal, obal, sess, stor, out, hist, last
 
-vars == <<now, mbal, sess, stor, out>>
+vars == <<now, mbal, obal, sess, stor, out>>
 
 \* ------------------------------------------------------------------ messages
 \* [k |-> "send", x]      bank send master -> sink
@@ -51,6 +53,7 @@ vars == <<now, mbal, sess, stor, out>>
 \* [k |-> "shrink", x]    ... shrinks it: deposit x refunded to the caller
 \* [k |-> "give", x]      realm call that sends x from the realm to the master
 \* [k |-> "revoke", x]    auth message (revoke session x = 1 / 2) - never allowed to a session
+\* [k |-> "osend", x]     bank send o -> sink, signed by the ORDINARY account o with its own key (mixed transactions only)
 Declared(m) == IF m.k \in {"send", "pay", "paypanic", "other"} THEN m.x ELSE 0      \* SpendForSigner
 RECURSIVE SumDeclared(_, _)
 SumDeclared(ms, i) == IF i > Len(ms) THEN 0 ELSE Declared(ms[i]) + SumDeclared(ms, i + 1)
@@ -83,7 +86,8 @@ Exec(W, m, t) ==
              IF ~d.ok THEN [ok |-> FALSE, w |-> W]
              ELSE IF W.bal < amt THEN [ok |-> FALSE, w |-> W]
              ELSE [ok |-> TRUE, w |-> [W EXCEPT !.bal = @ - amt, !.r = d.r]]
-  IN CASE m.k \in {"send", "pay", "other"} -> spend(m.x)
+  IN CASE m.k = "osend" -> IF W.ob < m.x THEN [ok |-> FALSE, w |-> W] ELSE [ok |-> TRUE, w |-> [W EXCEPT !.ob = @ - m.x]]
+       [] m.k \in {"send", "pay", "other"} -> spend(m.x)
        [] m.k = "paypanic" -> [ok |-> FALSE, w |-> W]
        [] m.k = "grow" -> LET s == spend(m.x) IN IF s.ok THEN [ok |-> TRUE, w |-> [s.w EXCEPT !.st = @ + m.x]] ELSE s
        [] m.k = "shrink" -> IF W.st < m.x THEN [ok |-> FALSE, w |-> W]      \* not generated (guard in Next)
@@ -98,7 +102,8 @@ Run(W, ms, i, t) == IF i > Len(ms) THEN [ok |-> TRUE, w |-> W]
 Shrinkable(ms) == \A i \in 1..Len(ms) : ms[i].k = "shrink" => stor >= ms[i].x
 ProjS(S) == [s \in Sess |-> [exists |-> S[s].exists, used |-> S[s].used, reset |-> S[s].reset, seq |-> S[s].seq,
                              limit |-> S[s].limit, period |-> S[s].period, expires |-> S[s].expires]]
-Rec(r, reply, b, S) == Append(hist, r @@ [reply |-> reply, now |-> now, st |-> [mbal |-> b, sess |-> ProjS(S)]])
+RecO(r, reply, b, ob, S) == Append(hist, r @@ [reply |-> reply, now |-> now, st |-> [mbal |-> b, obal |-> ob, sess |-> ProjS(S)]])
+Rec(r, reply, b, S) == RecO(r, reply, b, obal, S)
 
 \* ------------------------------------------------------------------ a transaction signed with session key s
 SessionTx(s, fee, ms) ==
@@ -115,26 +120,60 @@ SessionTx(s, fee, ms) ==
              IF ~d.ok \/ mbal < fee THEN reject
              ELSE IF \E i \in 1..Len(ms) : ~Allowed(r.allow, ms[i]) THEN reject   \* gno.land restrictions: after the auth ante, still an abort
              ELSE LET r1 == [d.r EXCEPT !.seq = @ + 1]                       \* phase 3
-                      W0 == [bal |-> mbal - fee, r |-> r1, st |-> stor, via |-> TRUE]
+                      W0 == [bal |-> mbal - fee, ob |-> obal, r |-> r1, st |-> stor, via |-> TRUE]
                       e == Run(W0, ms, 1, now)
                       W == IF e.ok THEN e.w ELSE W0                          \* failed message: back to the checkpoint
                       newPeriod == W.r.reset # r.reset
                       delta == mbal - W.bal
-                  IN /\ mbal' = W.bal /\ stor' = W.st /\ now' = now
+                  IN /\ mbal' = W.bal /\ stor' = W.st /\ now' = now /\ obal' = obal
                      /\ sess' = [sess EXCEPT ![s] = W.r]
                      /\ out' = [out EXCEPT ![s] = (IF newPeriod THEN 0 ELSE @) + (IF delta > 0 THEN delta ELSE 0)]
                      /\ hist' = Rec(rec, IF e.ok THEN "ok" ELSE "fail", W.bal, sess')
                      /\ last' = [act |-> "SessionTx", reply |-> IF e.ok THEN "ok" ELSE "fail", s |-> s]
 
+\* a transaction of 2..3 messages signed by TWO signers: the ordinary account o (its own "osend" messages, its own key) and
+\* the master through session key s (all other messages). Signers are collected in order of first appearance; the FIRST
+\* one pays the fee: when that is o the fee is o's and is not counted against the session (and phase 2a does not run).
+\* EVERY session-signed message is checked against the session's restrictions, whatever its position in the transaction
+\* and whoever signed the messages before it (app.go checkSessionRestrictions); one failing check rejects the whole
+\* transaction without any effect. (Two different sessions of one master cannot co-sign: one signature per signer address.)
+IsO(m) == m.k = "osend"
+MixedTx(s, fee, ms) ==
+  LET r == sess[s]
+      sFirst == ~IsO(ms[1])
+      rec == [act |-> "MixedTx", s |-> s, fee |-> fee, msgs |-> ms]
+      reject == /\ UNCHANGED vars
+                /\ hist' = Rec(rec, "reject", mbal, sess)
+                /\ last' = [act |-> "MixedTx", reply |-> "reject", s |-> s, msgs |-> ms]
+  IN /\ Len(hist) < MaxLen /\ Shrinkable(ms)
+     /\ IF ~r.exists THEN reject
+        ELSE IF r.expires > 0 /\ now >= r.expires THEN reject
+        ELSE IF sFirst /\ ~Check(r, fee + SumDeclared(ms, 1), now) THEN reject          \* phase 2a only for a session that pays
+        ELSE LET d == IF sFirst THEN Deduct(r, fee, now) ELSE [ok |-> TRUE, r |-> r] IN
+             IF ~d.ok \/ (sFirst /\ mbal < fee) \/ (~sFirst /\ obal < fee) THEN reject
+             ELSE IF \E i \in 1..Len(ms) : ~IsO(ms[i]) /\ ~Allowed(r.allow, ms[i]) THEN reject
+             ELSE LET r1 == [d.r EXCEPT !.seq = @ + 1]
+                      W0 == [bal |-> IF sFirst THEN mbal - fee ELSE mbal, ob |-> IF sFirst THEN obal ELSE obal - fee,
+                             r |-> r1, st |-> stor, via |-> TRUE]
+                      e == Run(W0, ms, 1, now)
+                      W == IF e.ok THEN e.w ELSE W0
+                      newPeriod == W.r.reset # r.reset
+                      delta == mbal - W.bal
+                  IN /\ mbal' = W.bal /\ obal' = W.ob /\ stor' = W.st /\ now' = now
+                     /\ sess' = [sess EXCEPT ![s] = W.r]
+                     /\ out' = [out EXCEPT ![s] = (IF newPeriod THEN 0 ELSE @) + (IF delta > 0 THEN delta ELSE 0)]
+                     /\ hist' = RecO(rec, IF e.ok THEN "ok" ELSE "fail", W.bal, W.ob, sess')
+                     /\ last' = [act |-> "MixedTx", reply |-> IF e.ok THEN "ok" ELSE "fail", s |-> s, msgs |-> ms]
+
 \* the master's own transaction (not counted against anybody)
 MasterTx(ms) ==
-  LET W0 == [bal |-> mbal - 1, r |-> NoSess, st |-> stor, via |-> FALSE]
+  LET W0 == [bal |-> mbal - 1, ob |-> obal, r |-> NoSess, st |-> stor, via |-> FALSE]
       e == Run(W0, ms, 1, now)
       W == IF e.ok THEN e.w ELSE W0 IN
   /\ Len(hist) < MaxLen /\ Shrinkable(ms) /\ mbal >= 1
   /\ \A i \in 1..Len(ms) : ms[i].k # "revoke"
   /\ mbal' = W.bal /\ stor' = W.st
-  /\ UNCHANGED <<now, sess, out>>
+  /\ UNCHANGED <<now, obal, sess, out>>
   /\ hist' = Rec([act |-> "MasterTx", msgs |-> ms], IF e.ok THEN "ok" ELSE "fail", W.bal, sess)
   /\ last' = [act |-> "MasterTx", reply |-> IF e.ok THEN "ok" ELSE "fail", s |-> "-"]
 
@@ -148,7 +187,7 @@ CreateSession(s, c) ==
   /\ Len(hist) < MaxLen /\ mbal >= 1
   /\ mbal' = mbal - 1 /\ sess' = S
   /\ out' = IF dup THEN out ELSE [out EXCEPT ![s] = 0]
-  /\ UNCHANGED <<now, stor>>
+  /\ UNCHANGED <<now, obal, stor>>
   /\ hist' = Rec([act |-> "CreateSession", s |-> s, c |-> c], IF dup THEN "fail" ELSE "ok", mbal - 1, S)
   /\ last' = [act |-> "CreateSession", reply |-> IF dup THEN "fail" ELSE "ok", s |-> s]
 
@@ -156,7 +195,7 @@ Revoke(s) ==
   LET S == [sess EXCEPT ![s] = NoSess] IN
   /\ Len(hist) < MaxLen /\ mbal >= 1
   /\ mbal' = mbal - 1 /\ sess' = S
-  /\ UNCHANGED <<now, stor, out>>
+  /\ UNCHANGED <<now, obal, stor, out>>
   /\ hist' = Rec([act |-> "Revoke", s |-> s], IF sess[s].exists THEN "ok" ELSE "fail", mbal - 1, S)
   /\ last' = [act |-> "Revoke", reply |-> IF sess[s].exists THEN "ok" ELSE "fail", s |-> s]
 
@@ -164,28 +203,29 @@ RevokeAll ==
   LET S == [s \in Sess |-> NoSess] IN
   /\ Len(hist) < MaxLen /\ mbal >= 1
   /\ mbal' = mbal - 1 /\ sess' = S
-  /\ UNCHANGED <<now, stor, out>>
+  /\ UNCHANGED <<now, obal, stor, out>>
   /\ hist' = Rec([act |-> "RevokeAll"], "ok", mbal - 1, S)
   /\ last' = [act |-> "RevokeAll", reply |-> "ok", s |-> "-"]
 
 AdvanceTime(t) ==
   /\ Len(hist) < MaxLen /\ t > now /\ t <= MaxTime
   /\ now' = t
-  /\ UNCHANGED <<mbal, sess, stor, out>>
-  /\ hist' = Append(hist, [act |-> "AdvanceTime", t |-> t, reply |-> "ok", now |-> t, st |-> [mbal |-> mbal, sess |-> ProjS(sess)]])
+  /\ UNCHANGED <<mbal, obal, sess, stor, out>>
+  /\ hist' = Append(hist, [act |-> "AdvanceTime", t |-> t, reply |-> "ok", now |-> t, st |-> [mbal |-> mbal, obal |-> obal, sess |-> ProjS(sess)]])
   /\ last' = [act |-> "AdvanceTime", reply |-> "ok", s |-> "-"]
 
 Init ==
-  /\ now = 0 /\ mbal = MStart /\ stor = 0
+  /\ now = 0 /\ mbal = MStart /\ obal = OStart /\ stor = 0
   /\ sess = [s \in Sess |-> IF Pre[s].limit < 0 THEN NoSess
                            ELSE [exists |-> TRUE, limit |-> Pre[s].limit, used |-> 0, period |-> Pre[s].period, reset |-> 0,
                                  expires |-> Pre[s].expin, allow |-> Pre[s].allow, seq |-> 0]]
   /\ out = [s \in Sess |-> 0]
-  /\ hist = << [act |-> "Setup", pre |-> Pre, reply |-> "ok", now |-> 0, st |-> [mbal |-> MStart, sess |-> ProjS(sess)]] >>
+  /\ hist = << [act |-> "Setup", pre |-> Pre, reply |-> "ok", now |-> 0, st |-> [mbal |-> MStart, obal |-> OStart, sess |-> ProjS(sess)]] >>
   /\ last = [act |-> "Init", reply |-> "ok", s |-> "-"]
 
 Next ==
   \/ \E s \in Sess, f \in Fees, ms \in Menu : SessionTx(s, f, ms)
+  \/ \E s \in Sess, f \in Fees, ms \in MixMenu : MixedTx(s, f, ms)
   \/ \E ms \in Menu : MasterTx(ms)
   \/ \E s \in Sess, c \in Creates : CreateSession(s, c)
   \/ \E s \in Sess : Revoke(s)
@@ -196,23 +236,28 @@ Spec == Init /\ [][Next]_<<vars, hist, last>>
 View == <<vars, Len(hist)>>
 
 \* ------------------------------------------------------------------ properties (C16)
+SessionActs == {"SessionTx", "MixedTx"}
 \* real outflow attributed to a session within its current period never exceeds its limit
 WithinLimit == \A s \in Sess : sess[s].exists => out[s] <= sess[s].limit
 \* ... because the session's own counter covers it and is itself bounded
 UsedCovers == \A s \in Sess : sess[s].exists => out[s] <= sess[s].used /\ sess[s].used <= sess[s].limit
 \* an expired, revoked or never created session authorises nothing: the transaction is rejected without any effect
 DeadAuthorizesNothing ==
-  [][(last'.act = "SessionTx" /\ (~sess[last'.s].exists \/ (sess[last'.s].expires > 0 /\ now >= sess[last'.s].expires)))
+  [][(last'.act \in SessionActs /\ (~sess[last'.s].exists \/ (sess[last'.s].expires > 0 /\ now >= sess[last'.s].expires)))
         => (last'.reply = "reject" /\ UNCHANGED vars)]_<<vars, last>>
 \* a rejected session transaction costs the master nothing; a failed one costs exactly what the session was charged for
-RejectIsFree == [][(last'.act = "SessionTx" /\ last'.reply = "reject") => UNCHANGED vars]_<<vars, last>>
+RejectIsFree == [][(last'.act \in SessionActs /\ last'.reply = "reject") => UNCHANGED vars]_<<vars, last>>
+\* restrictions hold at every position: a mixed transaction takes effect only if every session-signed message of it is allowed
+RestrictionsEverywhere ==
+  [][(last'.act = "MixedTx" /\ last'.reply # "reject") =>
+       \A i \in 1..Len(last'.msgs) : IsO(last'.msgs[i]) \/ Allowed(sess[last'.s].allow, last'.msgs[i])]_<<vars, last>>
 \* a session transaction never takes more from the master than the session's remaining budget at that moment
 StepWithinBudget ==
-  [][last'.act = "SessionTx" =>
+  [][last'.act \in SessionActs =>
        LET s == last'.s IN mbal - mbal' <= sess[s].limit]_<<vars, last>>
 \* sessions of the same master are independent: a transaction of one never changes the other's record
-Independent == [][last'.act = "SessionTx" => \A s \in Sess : s # last'.s => sess'[s] = sess[s]]_<<vars, last>>
-TypeOK == mbal >= 0 /\ stor >= 0 /\ \A s \in Sess : sess[s].used >= 0
+Independent == [][last'.act \in SessionActs => \A s \in Sess : s # last'.s => sess'[s] = sess[s]]_<<vars, last>>
+TypeOK == mbal >= 0 /\ obal >= 0 /\ stor >= 0 /\ \A s \in Sess : sess[s].used >= 0
 
 Emit == PrintT(<<"TRACE", ToJson(hist)>>)
 EmitAtEnd == Len(hist) < MaxLen \/ Emit
